@@ -1868,6 +1868,9 @@ class Evaluator:
                         return sp.Float(v_) if short == 'float' else sp.Integer(v_)
                 except ValueError:
                     pass
+            if short == 'int' and len(a) == 1 and isinstance(a[0], App) and a[0].name in ('bool', 'call:bool') \
+                    and len(a[0].args) == 1 and is_num(a[0].args[0]) and a[0].args[0].is_number:
+                return sp.Integer(int(bool(a[0].args[0] != 0)))
             if short in ('float', 'int') and len(a) == 1 and isinstance(a[0], Const) and isinstance(a[0].v, bool):
                 return sp.Integer(int(a[0].v)) if short == 'int' else sp.Float(float(a[0].v))
             if short == 'int' and len(a) == 1 and isinstance(a[0], sp.Float) and float(a[0]) == int(float(a[0])):
@@ -2046,6 +2049,11 @@ class Evaluator:
                 if u is None or is_num(u):
                     return q if u is None or _has_unit(q) else q * u
         if name.startswith('operator.') and short in ('and_', 'or_', 'xor'):
+            if len(a) == 2 and all(isinstance(x, sp.Integer) or (isinstance(x, Const) and isinstance(x.v, bool)) for x in a):
+                import operator as _op
+                pv = [int(x) if isinstance(x, sp.Integer) else x.v for x in a]
+                r_ = getattr(_op, short)(*pv)
+                return Const(r_) if isinstance(r_, bool) else sp.Integer(r_)
             if len(a) == 2:
                 return BoolT({'and_': 'and', 'or_': 'or', 'xor': 'xor'}[short], tuple(a))
         return App(name, tuple(a) + tuple(Tup((Const(k), v)) for k, v in sorted(
